@@ -60,6 +60,9 @@ ASSUMPTIONS = [
     "liveness is decided in bounded virtual time: waiters must be finished when every connection has terminated and a grace "
     "period has passed; a connection that still has an armed timer at the bound makes the scenario inconclusive",
     "QuicConnection (sans-IO core) event emission is trusted for ConnectionIdIssued/ConnectionIdRetired/ConnectionTerminated",
+    "bounded-delivery (completeness) is not demanded on connections on which request_key_update() was called: the core drops the "
+    "previous receive keys immediately, so under loss the two sides can end up in different key phases until idle timeout "
+    "(counted as obs_streams_stalled_after_key_update; prefix/EOF/waiter/routing oracles still apply)",
 ]
 
 FG_BOUND = 150.0  # virtual seconds a client body waits for its foreground operations
@@ -319,6 +322,7 @@ class PInfo:
         self.wc_pending = False
         self.peer_addr = None
         self.created_by_tag = None
+        self.key_updated = False
 
 
 _MON = None
@@ -842,6 +846,7 @@ class Scenario:
         elif kind == "key_update":
             if v.handshake and not v.terminated and not v.close_called:
                 proto.request_key_update()
+                v.key_updated = True
                 self.count("ops_request_key_update")
             else:
                 self.count("ops_key_update_skipped_precondition")
@@ -1373,6 +1378,12 @@ class Scenario:
             if self.server_close_time is not None:
                 ends.append(self.server_close_time)
             up_for = min(ends) - t0
+            if (wconn.vf.key_updated or rconn.vf.key_updated) and not (r.eof_seen and not r.eof_by_term):
+                # sans-IO core, not the adapter: after a local key update the previous receive keys are dropped at once; if the
+                # first packets of the new phase are lost the peer keeps sending in the old phase and nothing is ever accepted
+                # again (connection dies by idle timeout).  Observed on the unchanged tree; outside this property.
+                self.count("obs_streams_stalled_after_key_update")
+                continue
             if r.eof_seen and not r.eof_by_term and r.read_len == r.written and r.eof_seen_at <= t0 + COMPLETE_GRACE:
                 self.count("streams_completeness_checked")
                 continue
